@@ -300,107 +300,7 @@ func C01(ctx *core.Ctx) {
 
 	// ---- R8 undeliverable frames are not errors ---------------------------------
 	ctx.Rule("C01.R8", "a frame the registry cannot deliver (unknown, completed or duplicate op id) is discarded without an error wherever a reader loop treats an error of Execute as fatal", 2)
-	if delivery != nil {
-		// reader loops for which an error of Execute ends the loop
-		var fatal []string
-		for _, f := range r.Fns {
-			for _, c := range ssax.Calls(f) {
-				isExec := false
-				for _, t := range r.Resolve(c) {
-					if regImpl[t] == "Execute" {
-						isExec = true
-					}
-				}
-				v, isVal := c.Instr.(ssa.Value)
-				if !isExec || !isVal {
-					continue
-				}
-				// the call sits in a loop: it can be reached again from itself
-				isCall := func(in ssa.Instruction) bool { return in == c.Instr }
-				if ssax.PathFrom(f, c.Instr, isCall, nil) == nil {
-					continue
-				}
-				for _, u := range *v.Referrers() {
-					bo, ok := u.(*ssa.BinOp)
-					if !ok || (bo.Op != token.NEQ && bo.Op != token.EQL) || bo.Referrers() == nil {
-						continue
-					}
-					for _, w := range *bo.Referrers() {
-						iff, ok := w.(*ssa.If)
-						if !ok {
-							continue
-						}
-						errSucc := iff.Block().Succs[0]
-						if bo.Op == token.EQL {
-							errSucc = iff.Block().Succs[1]
-						}
-						if len(errSucc.Instrs) == 0 {
-							continue
-						}
-						first := errSucc.Instrs[0]
-						if ssax.IsReturn(first) || ssax.PathFrom(f, first, ssax.IsReturn, isCall) != nil {
-							fatal = append(fatal, ssax.Name(f))
-						}
-					}
-				}
-			}
-		}
-		sort.Strings(fatal)
-		dn := ssax.Name(delivery)
-		i := 0
-		for ret := range ReturnedValues(delivery) {
-			_ = ret
-			i++
-		}
-		nonNil := 0
-		var pos token.Pos
-		for ret := range ReturnedValues(delivery) {
-			if !nilErrorReturn(ret) {
-				nonNil++
-				pos = ret.Pos()
-			}
-		}
-		if pos == token.NoPos {
-			pos = delivery.Pos()
-		}
-		ctx.Check(nonNil == 0 || len(fatal) == 0, "C01.R8", dn+" › returns nil on every path", r.Pos(pos),
-			fmt.Sprintf("%d returns, all nil (fatal-on-error reader loops: %v)", i, fatal),
-			fmt.Sprintf("the delivery function reports an undeliverable frame as an error and %v ends its loop (closing the transport) on any error of Execute: a stale or duplicated response for one request fails every other in-flight request", fatal))
-		// Execute itself: a non-nil error is a header/op-id parse error or the delivery result
-		for f, role := range regImpl {
-			if role != "Execute" {
-				continue
-			}
-			bad := ""
-			for ret, vs := range ReturnedValues(f) {
-				if nilErrorReturn(ret) || len(vs) == 0 {
-					continue
-				}
-				v := ssax.Strip(vs[len(vs)-1])
-				if tup, ok := ExtractOf(v, 1); ok {
-					if pc, ok := CallValue(tup); ok {
-						if pc.FullName() == "strconv.ParseUint" || (pc.Static != nil && returnsHeaderMap(pc.Static)) {
-							continue
-						}
-					}
-				}
-				if pc, ok := CallValue(v); ok {
-					hit := false
-					for _, t := range r.Resolve(pc) {
-						if t == delivery {
-							hit = true
-						}
-					}
-					if hit {
-						continue
-					}
-				}
-				bad = r.Pos(ret.Pos())
-			}
-			ctx.Check(bad == "" || len(fatal) == 0, "C01.R8", ssax.Name(f)+" › errors are parse errors of this frame only", fnPos(r, f),
-				"non-nil results: getHeadersFromFrame / ParseUint error, or the delivery result", "Execute returns an error that is not a malformed-frame error at "+bad+"; reader loops close the transport on it")
-		}
-	}
+	undeliverableNotError(ctx, r, "C01.R8", delivery, regImpl)
 
 	// ---- R7 frame ownership -------------------------------------------------------
 	ctx.Rule("C01.R7", "frame ownership: every frame a reader loop hands to the registry is a buffer allocated for that frame alone (the registry passes it to the caller uncopied)", 1)
@@ -793,4 +693,110 @@ func returnsFreshSlice(fn *ssa.Function) bool {
 		return false
 	}
 	return n > 0
+}
+
+// undeliverableNotError: a frame the registry cannot deliver is discarded
+// without an error wherever a reader loop treats an error of Execute as fatal.
+func undeliverableNotError(ctx *core.Ctx, r *RT, rule string, delivery *ssa.Function, regImpl map[*ssa.Function]string) {
+	if delivery != nil {
+		// reader loops for which an error of Execute ends the loop
+		var fatal []string
+		for _, f := range r.Fns {
+			for _, c := range ssax.Calls(f) {
+				isExec := false
+				for _, t := range r.Resolve(c) {
+					if regImpl[t] == "Execute" {
+						isExec = true
+					}
+				}
+				v, isVal := c.Instr.(ssa.Value)
+				if !isExec || !isVal {
+					continue
+				}
+				// the call sits in a loop: it can be reached again from itself
+				isCall := func(in ssa.Instruction) bool { return in == c.Instr }
+				if ssax.PathFrom(f, c.Instr, isCall, nil) == nil {
+					continue
+				}
+				for _, u := range *v.Referrers() {
+					bo, ok := u.(*ssa.BinOp)
+					if !ok || (bo.Op != token.NEQ && bo.Op != token.EQL) || bo.Referrers() == nil {
+						continue
+					}
+					for _, w := range *bo.Referrers() {
+						iff, ok := w.(*ssa.If)
+						if !ok {
+							continue
+						}
+						errSucc := iff.Block().Succs[0]
+						if bo.Op == token.EQL {
+							errSucc = iff.Block().Succs[1]
+						}
+						if len(errSucc.Instrs) == 0 {
+							continue
+						}
+						first := errSucc.Instrs[0]
+						if ssax.IsReturn(first) || ssax.PathFrom(f, first, ssax.IsReturn, isCall) != nil {
+							fatal = append(fatal, ssax.Name(f))
+						}
+					}
+				}
+			}
+		}
+		sort.Strings(fatal)
+		dn := ssax.Name(delivery)
+		i := 0
+		for ret := range ReturnedValues(delivery) {
+			_ = ret
+			i++
+		}
+		nonNil := 0
+		var pos token.Pos
+		for ret := range ReturnedValues(delivery) {
+			if !nilErrorReturn(ret) {
+				nonNil++
+				pos = ret.Pos()
+			}
+		}
+		if pos == token.NoPos {
+			pos = delivery.Pos()
+		}
+		ctx.Check(nonNil == 0 || len(fatal) == 0, rule, dn+" › returns nil on every path", r.Pos(pos),
+			fmt.Sprintf("%d returns, all nil (fatal-on-error reader loops: %v)", i, fatal),
+			fmt.Sprintf("the delivery function reports an undeliverable frame as an error and %v ends its loop (closing the transport) on any error of Execute: a stale or duplicated response for one request fails every other in-flight request", fatal))
+		// Execute itself: a non-nil error is a header/op-id parse error or the delivery result
+		for f, role := range regImpl {
+			if role != "Execute" {
+				continue
+			}
+			bad := ""
+			for ret, vs := range ReturnedValues(f) {
+				if nilErrorReturn(ret) || len(vs) == 0 {
+					continue
+				}
+				v := ssax.Strip(vs[len(vs)-1])
+				if tup, ok := ExtractOf(v, 1); ok {
+					if pc, ok := CallValue(tup); ok {
+						if pc.FullName() == "strconv.ParseUint" || (pc.Static != nil && returnsHeaderMap(pc.Static)) {
+							continue
+						}
+					}
+				}
+				if pc, ok := CallValue(v); ok {
+					hit := false
+					for _, t := range r.Resolve(pc) {
+						if t == delivery {
+							hit = true
+						}
+					}
+					if hit {
+						continue
+					}
+				}
+				bad = r.Pos(ret.Pos())
+			}
+			ctx.Check(bad == "" || len(fatal) == 0, rule, ssax.Name(f)+" › errors are parse errors of this frame only", fnPos(r, f),
+				"non-nil results: getHeadersFromFrame / ParseUint error, or the delivery result", "Execute returns an error that is not a malformed-frame error at "+bad+"; reader loops close the transport on it")
+		}
+	}
 }
